@@ -355,23 +355,24 @@ func (r *Realm) parseLines(name string, lines []string) (err error) {
 			err = UnsupportedDirective{"v4 configurations are not supported"}
 		}
 		if strings.Contains(line, "{") {
+			// The opening line of a nested block holds no relation of the realm itself.
 			c++
-			if ignore {
-				continue
-			}
+			continue
 		}
 		if strings.Contains(line, "}") {
 			c--
 			if c < 0 {
 				return InvalidErrorf("unpaired curly brackets")
 			}
-			if ignore {
-				if c < 1 {
-					c = 0
-					ignore = false
-				}
-				continue
+			if c < 1 {
+				c = 0
+				ignore = false
 			}
+			continue
+		}
+		if c > 0 {
+			// Relations inside a nested block (for example auth_to_local_names) are not the realm's.
+			continue
 		}
 
 		p := strings.Split(line, "=")
